@@ -36,7 +36,9 @@ def gen_raw(rng):
         r = rng.random()
         if r < 0.08:
             return None
-        names = {"functions": ["utility", "next_w", "next_h", "aux"], "choices": ["c", "d", "w"], "states": ["w", "h"]}[kind]
+        # names collide on purpose: "aux" is a function and may be a state, "next_w" may be a choice, "utility" a state
+        names = {"functions": ["utility", "next_w", "next_h", "aux", "next_aux", "w"], "choices": ["c", "d", "w", "next_w"],
+                 "states": ["w", "h", "aux", "utility"]}[kind]
         k = rng.randint(0, len(names))
         out = []
         for n in rng.sample(names, k):
@@ -53,7 +55,8 @@ def gen_raw(rng):
         c["functions"] = [["utility", True]] + [["next_" + s, True] for s in st] + ([["aux", True]] if rng.random() < 0.5 else [])
         rng.shuffle(c["functions"])
         # single violations on top of the valid spec
-        v = rng.choice([None, None, "periods", "utility", "next", "overlap", "nongrid", "noncallable", "key"])
+        v = rng.choice([None, None, "periods", "utility", "next", "overlap", "nongrid", "noncallable", "key",
+                        "state_named_like_a_function", "state_named_like_a_function"])
         if v == "periods":
             c["n_periods"] = rng.choice([0, -3])
         elif v == "utility":
@@ -68,6 +71,12 @@ def gen_raw(rng):
             c["functions"][0][1] = False
         elif v == "key":
             c["choices"].append([7, True])
+        elif v == "state_named_like_a_function":
+            # a state whose name is also a key of `functions`; its transition is present or (violation) missing
+            fn = rng.choice([f[0] for f in c["functions"]])
+            c["states"].append([fn, True])
+            if rng.random() < 0.5:
+                c["functions"].append(["next_" + fn, True])
     return c
 
 
